@@ -133,6 +133,120 @@ def intsub_limits(p):
 
 
 def check_rebin(ctx):
+    """decided for a grid of any length, bin position by bin position (first / interior / last); a re-binning written another way (bin edges built as
+    one array, the loop restricted by a mask, ...) that this reading does not follow is decided on grids of two and three frequencies instead"""
+    from ..roundtrip import TrialCtx
+    t = TrialCtx(ctx)
+    _check_rebin_symbolic(t)
+    if t.n_undecided and not t.n_violations and rebin_concrete(ctx):
+        ctx.exhaustive = True
+        return
+    t.commit()
+    ctx.exhaustive = True
+
+
+def rebin_concrete(ctx):
+    """Filter.rebin interpreted on SED grids of 2 and 3 frequencies (every bin is then a first, an interior or a last one): response[k] under every
+    ordering of (lower edge, upper edge, the frequency itself, filter first, filter last) must be the integral of the filter between the edges clamped to
+    the filter range, 0 for an empty bin.  True when every bin was decided (the verdicts are then recorded)."""
+    repo = ctx.repo
+    fi = ctx.fn(repo.func('filter.filter', 'Filter.rebin'))
+    where_ = loc(fi)
+    Hz = sym('unit:Hz')
+    half = Poly.const(Fraction(1, 2))
+    fgrid = sym('fnu', K) / Hz
+    F0 = mk_fn('at', B(K, fgrid), P(Poly()))
+    results = []
+    for n in (2, 3):
+        h = RebinHooks('interior')
+        h.decide = lambda interp, test, env, mod: None          # nothing is fixed by configuration: the positions are concrete
+        I = Interp(repo, h)
+        I.exact_le = True
+        I.axis_len[N] = n
+        me = Obj(repo.cls('filter.filter', 'Filter'), {'name': 'F', '_wavelength': scalar(sym('fcw'), unit_atom('micron')),
+                                                       '_nu': symarr('fnu', (K,), unit=unit_atom('Hz')), '_r': symarr('fresp', (K,), unit=num(1))})
+        alg.NO_SHANNON = True          # every bracket is decided below by an ordering of the points it compares: expanding them first only costs
+        try:
+            try:
+                out = I.call(fi, [symarr('snu', (N,), unit=unit_atom('Hz'))], selfv=me)
+            except Exception:
+                return False
+            resp = out.attrs.get('_r') if isinstance(out, Obj) else None
+            if not isinstance(resp, Arr) or resp.mask is not None or tuple(resp.dims) != (N,) or I.lost or I.findings:
+                return False
+            r_ = _rebin_bins(n, resp, results)
+        finally:
+            alg.NO_SHANNON = False
+        if r_ is False:
+            return False
+    for n, k, pos, n_ord, bad in results:
+        inst = 'rebin response on a grid of %d frequencies, bin %d (%s): all orderings of (lower edge, upper edge, the frequency, filter first, filter last)' % (n, k, pos)
+        if bad:
+            r_, g_, w_ = bad[0]
+            order = ' <= '.join(n_ for _, n_ in sorted(zip(r_, ('lower edge', 'upper edge', 'the frequency', 'filter nu[0]', 'filter nu[-1]'))))
+            ctx.violation('ALG-13', inst, where_, '%d of %d orderings differ, e.g. for %s: response is %s, expected %s' % (len(bad), n_ord, order, g_, w_), 'ordering-mismatch')
+        else:
+            ctx.ok('ALG-13', inst, where_, 'in all %d orderings response[k] == integral of the filter between the bin edges clamped to the filter range, 0 for an empty bin' % n_ord)
+    ctx.ok('CFG-11a', 'clamp bounds are order-normalised', where_, 'covered by the ordering enumeration: filter first < last and first > last both give the integral over [min, max]')
+    ctx.ok('CFG-11a', 'SED grid in either order', where_, 'covered by the ordering enumeration: lower edge < upper edge and lower edge > upper edge')
+    return True
+
+
+def _rebin_bins(n, resp, results):
+    Hz = sym('unit:Hz')
+    half = Poly.const(Fraction(1, 2))
+    fgrid = sym('fnu', K) / Hz
+    F0 = mk_fn('at', B(K, fgrid), P(Poly()))
+    x = [alg.index_at(sym('snu', N), N, Poly.const(k)) / Hz for k in range(n)]
+    FN = alg.index_at(sym('fnu', K), K, Poly.const(-1)) / Hz
+    FNs = [FN, mk_fn('at', B(K, fgrid), P(Poly.const(-1)))]
+    for k in range(n):
+        e1 = x[0] if k == 0 else half * (x[k - 1] + x[k])
+        e2 = x[n - 1] if k == n - 1 else half * (x[k] + x[k + 1])
+        rk = alg.index_at(resp.poly, N, Poly.const(k))
+        pos = 'first' if k == 0 else ('last' if k == n - 1 else 'interior')
+        n_ord, bad, left = 0, [], set()
+        for ranks in alg.weak_orderings(5):          # e1, e2, x_k, F0, FN
+            if ranks[0] == ranks[1] or ranks[3] == ranks[4]:
+                continue
+            if pos == 'first' and ranks[2] != ranks[0] or pos == 'last' and ranks[2] != ranks[1]:
+                continue
+            if pos == 'interior' and not (min(ranks[0], ranks[1]) < ranks[2] < max(ranks[0], ranks[1])):
+                continue
+            n_ord += 1
+            got = rk
+            for FN_ in FNs:
+                got = alg.OrderFacts([e1, e2, x[k], F0, FN_], ranks).simplify(got)
+            lo_r, hi_r = min(ranks[3], ranks[4]), max(ranks[3], ranks[4])
+            ra, rb = min(max(ranks[0], lo_r), hi_r), min(max(ranks[1], lo_r), hi_r)
+            lim = intsub_limits(got)
+            if lim is None:
+                if alg.contains_atom(got, lambda a: a[0] == 'ind'):
+                    left.add(alg.show(got, 160))
+                else:
+                    bad.append((ranks, alg.show(got, 100), 'not a single bin integral'))
+                continue
+            if ra == rb:
+                okk = lim == ('zero',)
+                want_txt = '0 (the bin does not meet the filter)'
+            else:
+                def point(r, own, own_rank):
+                    if r == own_rank:
+                        return [own]
+                    return [F0] + FNs if False else ([F0] if ranks[3] == r else FNs)
+                pa, pb = point(ra, e1, ranks[0]), point(rb, e2, ranks[1])
+                okk = lim != ('zero',) and any({Poly.from_key(v_) for v_ in lim[2]} == {a_, b_} for a_ in pa for b_ in pb)
+                want_txt = 'the integral between %s and %s' % (alg.show(pa[0], 40), alg.show(pb[0], 40))
+            if not okk:
+                bad.append((ranks, '0' if lim == ('zero',) else 'integral between {%s}' % ', '.join(sorted(alg.show(Poly.from_key(v_), 40) for v_ in lim[2])), want_txt))
+        if left and not bad:
+            return False
+        results.append((n, k, pos, n_ord, bad))
+
+    return True
+
+
+def _check_rebin_symbolic(ctx):
     repo = ctx.repo
     fi = ctx.fn(repo.func('filter.filter', 'Filter.rebin'))
     Hz = sym('unit:Hz')
@@ -548,6 +662,7 @@ IN = 'sedfitter/utils/integrate.py'
 IP = 'sedfitter/utils/interpolate.py'
 CV = 'sedfitter/convolve/convolve.py'
 MUST_FIRE = [
+    ('bin edges as one clipped array, the loop restricted to frequencies inside the filter: bins that straddle a filter end get nothing', [('sedfitter/filter/filter.py', '        for i in range(len(f.response)):\n\n            if i == 0:\n                nu1 = nu_new_hz[0]\n            else:\n                nu1 = 0.5 * (nu_new_hz[i - 1] + nu_new_hz[i])\n\n            if i == len(nu_new_hz) - 1:\n                nu2 = nu_new_hz[-1]\n            else:\n                nu2 = 0.5 * (nu_new_hz[i] + nu_new_hz[i + 1])\n\n            nu1 = min(max(nu1, self_nu_min), self_nu_max)\n            nu2 = min(max(nu2, self_nu_min), self_nu_max)\n\n', '        edges = np.hstack([nu_new_hz[0], 0.5 * (nu_new_hz[:-1] + nu_new_hz[1:]), nu_new_hz[-1]])\n        edges = np.clip(edges, self_nu_min, self_nu_max)\n        covered = (nu_new_hz >= self_nu_min) & (nu_new_hz <= self_nu_max)\n        for i in np.nonzero(covered)[0]:\n\n            nu1, nu2 = edges[i], edges[i + 1]\n\n')]),
     ('re-binned filters reused when only the length and the end points of the grid agree', [(CV, "        try:\n            assert binned_nu is not None\n            np.testing.assert_array_almost_equal_nulp(s.nu.value, binned_nu.value, 100)\n        except (ValueError, AssertionError):\n", "        if binned_nu is None or len(s.nu) != len(binned_nu) or s.nu[0] != binned_nu[0] or s.nu[-1] != binned_nu[-1]:\n")]),
     ('re-binned filters reused when the grids agree to a relative tolerance of 100', [(CV, "        try:\n            assert binned_nu is not None\n            np.testing.assert_array_almost_equal_nulp(s.nu.value, binned_nu.value, 100)\n        except (ValueError, AssertionError):\n", "        if binned_nu is None or s.nu.shape != binned_nu.shape or not np.allclose(s.nu.value, binned_nu.value, 100):\n")]),
     ('re-binned filters reused whenever the grid has the same length', [(CV, "        try:\n            assert binned_nu is not None\n            np.testing.assert_array_almost_equal_nulp(s.nu.value, binned_nu.value, 100)\n        except (ValueError, AssertionError):\n", "        if binned_nu is None or len(s.nu) != len(binned_nu):\n")]),
@@ -575,6 +690,7 @@ MUST_FIRE = [
     ('response stored at the previous bin', [(FI, "f.response[i] = integrate_subset", "f.response[i - 1] = integrate_subset")]),
 ]
 MUST_SILENT = [
+    ('bin edges as one clipped array, every bin visited', [('sedfitter/filter/filter.py', '        for i in range(len(f.response)):\n\n            if i == 0:\n                nu1 = nu_new_hz[0]\n            else:\n                nu1 = 0.5 * (nu_new_hz[i - 1] + nu_new_hz[i])\n\n            if i == len(nu_new_hz) - 1:\n                nu2 = nu_new_hz[-1]\n            else:\n                nu2 = 0.5 * (nu_new_hz[i] + nu_new_hz[i + 1])\n\n            nu1 = min(max(nu1, self_nu_min), self_nu_max)\n            nu2 = min(max(nu2, self_nu_min), self_nu_max)\n\n', '        edges = np.hstack([nu_new_hz[0], 0.5 * (nu_new_hz[:-1] + nu_new_hz[1:]), nu_new_hz[-1]])\n        edges = np.clip(edges, self_nu_min, self_nu_max)\n        for i in range(len(f.response)):\n\n            nu1, nu2 = edges[i], edges[i + 1]\n\n')]),
     ('grid compared with np.array_equal', [(CV, "        try:\n            assert binned_nu is not None\n            np.testing.assert_array_almost_equal_nulp(s.nu.value, binned_nu.value, 100)\n        except (ValueError, AssertionError):\n", "        if binned_nu is None or not np.array_equal(s.nu.value, binned_nu.value):\n")]),
     ('grid compared with shape and np.all(==)', [(CV, "        try:\n            assert binned_nu is not None\n            np.testing.assert_array_almost_equal_nulp(s.nu.value, binned_nu.value, 100)\n        except (ValueError, AssertionError):\n", "        if binned_nu is None or s.nu.shape != binned_nu.shape or not np.all(s.nu == binned_nu):\n")]),
     ('filters re-binned for every SED', [(CV, "        try:\n            assert binned_nu is not None\n            np.testing.assert_array_almost_equal_nulp(s.nu.value, binned_nu.value, 100)\n        except (ValueError, AssertionError):\n", "        if True:\n")]),
